@@ -30,9 +30,12 @@ func genbankFieldNameParser(q interface{}, depth int) pars.Parser {
 		}
 		name := string(result.Token)
 		indentLength := depth - len(name)
+		if indentLength < 0 {
+			indentLength = 0
+		}
 		indentParser := pars.String(strings.Repeat(" ", indentLength))
 		paddingParser := pars.Any(indentParser, pars.Dry(pars.EOL))
-		if paddingParser(state, pars.Void) != nil {
+		if len(name) > depth || paddingParser(state, pars.Void) != nil {
 			state.Clear()
 			what := fmt.Sprintf("uneven indent in field `%s`", name)
 			return pars.NewError(what, state.Position())
